@@ -239,6 +239,7 @@ pub fn run(tier: &str, seed: u64, outdir: &str) {
         let q = &reqs[*qi];
         let signed = signed_sx(cred);
         let other_cred = &issued[if ii == second { 0 } else { second }].0;
+        let other_q = &reqs[issued[if ii == second { 0 } else { second }].1];
         // alterations of the credential: (name, document edit, signature altered?)
         let edits: Vec<(&str, Box<dyn Fn(&mut Value)>, bool)> = vec![
             ("none", Box::new(|_d: &mut Value| {}), false),
@@ -329,10 +330,21 @@ pub fn run(tier: &str, seed: u64, outdir: &str) {
                                 (res, v, fed)
                             };
                             let id = out.next_id();
+                            if std::env::var("AVH_DEBUG").is_ok() && *sig_altered && res == "ok" {
+                                eprintln!("C11DEBUG id={} edit={} k={} l={} md={} w3c={} retry={} q.link={} q.id={} oq.link={} oq.id={} verify={:?}", id, ename, k, l, mname, w3c_form, retry, q.link, q.id, oq.link, oq.id, verify);
+                            }
                             out.case(
                                 &format!(
-                                    "(C11 {} P (0 {} {} {} {} {}) {} {} {} {} {} {} {})",
-                                    id, signed, q.link, q.id, q.id, sx::boolean(*sig_altered), fed, k, l, mb, mn, res, sx::opt(verify, |v| v.to_string())
+                                    "(C11 {} P {} {} {} {} {} {} {} {})",
+                                    id,
+                                    // the library works on the FIRST AnonCreds proof of a W3C credential: with a foreign one listed
+                                    // first, what is processed is that other credential's signature (unaltered) over this subject
+                                    if *ename == "w3c-foreign-anoncreds-proof-first" {
+                                        format!("(0 {} {} {} {} f)", signed_sx(other_cred), other_q.link, other_q.id, other_q.id)
+                                    } else {
+                                        format!("(0 {} {} {} {} {})", signed, q.link, q.id, q.id, sx::boolean(*sig_altered))
+                                    },
+                                    fed, k, l, mb, mn, res, sx::opt(verify, |v| v.to_string())
                                 ),
                                 &format!("process:{}{}:{}:{}", if w3c_form { "w3c" } else { "legacy" }, if retry { "-after-refused-attempts" } else { "" }, if alterations == 0 { "honest" } else if alterations == 1 { "one-alteration" } else { "several-alterations" }, res),
                                 || json!({"op": "process", "form": if w3c_form { "w3c" } else { "legacy" }, "edit": ename, "cred_def": k, "link": l, "metadata": mname, "impl": res, "verify": verify}),
